@@ -72,7 +72,10 @@ fn main() {
 
 TYPES = [("i32", "i32"), ("String", "alloc::string::String"), ("Vec<u8>", "alloc::vec::Vec<u8>"), ("&'static str", "&str"), ("u64", "u64"),
          ("crate::Alpha", "{crate}::Alpha"), ("crate::deep::Beta<u8>", "{crate}::deep::Beta<u8>"), ("Option<crate::Alpha>", "core::option::Option<{crate}::Alpha>"),
-         ("[u8; 4]", "[u8; 4]"), ("()", "()")]
+         ("[u8; 4]", "[u8; 4]"), ("()", "()"),
+         ("Vec<Vec<u8>>", "alloc::vec::Vec<alloc::vec::Vec<u8>>"), ("Option<Vec<u8>>", "core::option::Option<alloc::vec::Vec<u8>>"),
+         ("Result<Vec<u8>, String>", "core::result::Result<alloc::vec::Vec<u8>, alloc::string::String>"),
+         ("crate::deep::Beta<Option<crate::Alpha>>", "{crate}::deep::Beta<core::option::Option<{crate}::Alpha>>")]
 
 IDENTS = ["alpha", "beta", "gamma", "delta", "eps", "zeta", "eta", "theta", "iota", "kappa", "lam", "mu", "nu", "xi", "omi", "pi", "rho", "sigma", "tau", "ups",
           "b1", "b2", "b10", "b02", "x9", "x10", "x100", "r#match", "r#type", "r#loop", "Upper", "mixedCase", "with_under", "n0", "n00", "zz9",
@@ -203,7 +206,7 @@ def gen_program(rng, crate, index, size):
                 return n
         raise RuntimeError("idents exhausted")
 
-    def add_bench(modpath, indent, nested_ok=True, force_kind=None, force_form=None, force_ident=None):
+    def add_bench(modpath, indent, nested_ok=True, force_kind=None, force_form=None, force_ident=None, force_empty=False):
         bid = next_id[0]
         next_id[0] += 1
         ident = force_ident or pick_ident(tuple(modpath))
@@ -284,7 +287,7 @@ def gen_program(rng, crate, index, size):
             elif kind == "both":
                 consts = rng.sample([1, 2, 3, 10, 20], rng.randrange(1, 4))
                 const_expr = "[%s]" % ", ".join(map(str, consts))
-            empty = rng.random() < 0.07 and kind in ("types", "consts")
+            empty = (rng.random() < 0.07 or force_empty) and kind in ("types", "consts")
             if empty:
                 tys, consts = [], []
                 const_expr = "[]" if kind == "consts" else None
@@ -408,6 +411,14 @@ def gen_program(rng, crate, index, size):
             add_bench(sub, 1, nested_ok=False, force_kind="consts_ext", force_form=form)
         for k in ("plain", "bencher", "types", "consts", "both", "both", "types_args", "consts_args"):
             add_bench(sub, 1, nested_ok=(k in ("plain", "bencher")), force_kind=k)
+        body.append("}")
+        # empty generic lists register nothing at all - also when a sibling module bears the function's name
+        body.append("mod empties {")
+        body.append("    use std::time::Duration;")
+        sub = [crate, "empties"]
+        add_bench(sub, 1, nested_ok=False, force_kind="types", force_ident="decode", force_empty=True)
+        add_module(sub, 1, 3, force_ident="decode", min_items=2)
+        add_bench(sub, 1, nested_ok=False, force_kind="consts", force_empty=True)
         body.append("}")
         # groups on modules named by raw identifiers: the group's own entry and the module path of its benchmarks must meet
         body.append("mod raw_groups {")
